@@ -196,7 +196,7 @@ def run_cfg(chk, facts, cfg):
     agg_sites = set()
     for root, insts in facts.inst_roots.items():
         for ins in insts:
-            for bb, c in ins['calls']:
+            for bb, c in ins['allcalls']:
                 if 'inst' in c and insts[c['inst']]['def'] == new['id']:
                     ctor_callers.add(ins['def'])
     for b in facts.raw['bodies']:
